@@ -88,6 +88,7 @@ type reqRecord struct {
 	u0, u1 string
 	chains int
 	dirty  int
+	laws   []string
 }
 
 const poisonKey = "\x00written-by-a-handler"
@@ -96,6 +97,7 @@ type routerSession struct {
 	f       *flamego.Flame
 	handles map[int]*flamego.Route
 	named   map[int]bool
+	exprs   map[int]map[string]*regexp.Regexp // hid → bind name → ^(?:its own expression)$ (EngineLaws monitor)
 	nested  []string // method and path of a request to be served from inside the next request's middleware
 	trees   map[string]flamego.VerifTree
 	shadow  map[int][]flamego.VerifLeaf
@@ -147,6 +149,7 @@ func execRouter(args []string, lines [][]string) []string {
 		f:       flamego.NewWithLogger(io.Discard),
 		handles: map[int]*flamego.Route{},
 		named:   map[int]bool{},
+		exprs:   map[int]map[string]*regexp.Regexp{},
 		trees:   map[string]flamego.VerifTree{},
 		shadow:  map[int][]flamego.VerifLeaf{},
 	}
@@ -278,6 +281,15 @@ func (s *routerSession) add(hid int, methods, text string) string {
 			}
 			s.cur.params[k] = v
 		}
+		// EngineLaws monitor (C02): every regex-constrained value matches its own declared expression in
+		// full; checked on the values the handler receives when the path carries no escapes
+		if !strings.Contains(c.Request().URL.Path, "%") {
+			for name, re := range s.exprs[hid] {
+				if v, ok := s.cur.params[name]; ok && !re.MatchString(v) {
+					s.cur.laws = append(s.cur.laws, hx(name)) // judged against the winning form's binds by the comparator
+				}
+			}
+		}
 		// a handler may write to the map it was given; no later request may see this
 		c.Params()[poisonKey] = "1"
 		name := fmt.Sprintf("r%d", hid)
@@ -301,6 +313,7 @@ func (s *routerSession) add(hid int, methods, text string) string {
 		}
 	})
 	if res == "ok" && rt != nil {
+		s.exprs[hid] = bindExprs(text)
 		s.handles[hid] = rt
 		if okErr(func() { rt.Name(fmt.Sprintf("r%d", hid)) }) == "ok" {
 			s.named[hid] = true
@@ -408,8 +421,8 @@ func (s *routerSession) req(method, path string, hs []string) (out string) {
 	if rec.ran == 0 {
 		return fmt.Sprintf("nf chains=%d code=%d", rec.chains, w.Code)
 	}
-	return fmt.Sprintf("h %d %s route=%s u0=%s u1=%s chains=%d ran=%d dirty=%d", rec.hid, showParams(rec.params),
-		hx(rec.params["route"]), hx(rec.u0), hx(rec.u1), rec.chains, rec.ran, rec.dirty)
+	return fmt.Sprintf("h %d %s route=%s u0=%s u1=%s chains=%d ran=%d dirty=%d laws=%s", rec.hid, showParams(rec.params),
+		hx(rec.params["route"]), hx(rec.u0), hx(rec.u1), rec.chains, rec.ran, rec.dirty, lawsField(rec.laws))
 }
 
 func (s *routerSession) treq(method, path string, hs []string) (out string) {
@@ -450,3 +463,36 @@ func copyMap(m map[string]string) map[string]string {
 }
 
 func canonHdr(name string) string { return textproto.CanonicalMIMEHeaderKey(name) }
+
+// bindExprs returns, for every regex-constrained bind of the route text, its own expression anchored in full.
+func bindExprs(text string) map[string]*regexp.Regexp {
+	out := map[string]*regexp.Regexp{}
+	defer func() { _ = recover() }()
+	ast, err := getParser().Parse(text)
+	if err != nil || ast == nil {
+		return out
+	}
+	for _, seg := range ast.Segments {
+		for _, e := range seg.Elements {
+			if e.BindParameters == nil {
+				continue
+			}
+			for _, p := range e.BindParameters.Parameters {
+				if p.Value.Regex != nil {
+					if re, err := regexp.Compile("^(?:" + *p.Value.Regex + ")$"); err == nil {
+						out[p.Ident] = re
+					}
+				}
+			}
+		}
+	}
+	return out
+}
+
+func lawsField(names []string) string {
+	if len(names) == 0 {
+		return "0"
+	}
+	sort.Strings(names)
+	return strings.Join(names, ",")
+}
